@@ -66,6 +66,20 @@ def main():
         for s in plan:
             if s['module'] != 'util':
                 C.get_module(s['module'])
+    if spec.get('preimport_country_modules'):
+        # the interpreter's own import machinery is kept out of these trials (two threads importing a package and its
+        # submodule at once make CPython hand out half-initialised modules - recorded separately from the trial
+        # family that walks the package tree): the country packages' vat / iban modules are imported, the library's
+        # own lazy state (_country_modules, registries) stays cold
+        import importlib
+        base = os.path.join(C.REPO, 'stdnum')
+        for cc in sorted(os.listdir(base)):
+            for sub in ('vat', 'iban'):
+                if os.path.exists(os.path.join(base, cc, sub + '.py')):
+                    try:
+                        importlib.import_module('stdnum.%s.%s' % (cc, sub))
+                    except Exception:  # noqa: B902
+                        pass
     barrier = threading.Barrier(n)
     results = [None] * n
     errors = []
